@@ -13,6 +13,7 @@ package server
 
 //@ func (*server.LoadBalancer).nextTarget
 //@ requires inv_index: 0 <= lb.index && lb.index <= 140737488355328
+//@ requires[C09,C18] rotation_advances_under_the_exclusive_lock: held(lb.lock)
 //@ assigns lb.index
 //@ ensures[C09] empty: len(old(lb.healthy)) == 0 ==> result == nil && lb.index == old(lb.index)
 //@ ensures[C09] step: len(old(lb.healthy)) > 0 ==> lb.index == (old(lb.index) + 1) % len(old(lb.healthy)) && result == old(lb.healthy)[lb.index]
